@@ -212,8 +212,8 @@ class ExcelInPython:
                     pattern = pattern.replace(item.group(), '.' + '{{' + str(item.span()[1]-item.span()[0]) + '}}', 1)
                 case item if '*' in item.group():
                     pattern = pattern.replace(item.group(), '.*', 1)
-        pattern = re.sub(r'(?<=~)[?*]', r'\\\\\g<0>', pattern)
-        pattern = re.sub(r'[\[\]]', r'\\\\\g<0>', pattern)
+        pattern = re.sub(r'(?<=~)[?*]', r'\\\\\\g<0>', pattern)
+        pattern = re.sub(r'[\\[\\]]', r'\\\\\\g<0>', pattern)
         return pattern
 
     @staticmethod
